@@ -494,17 +494,23 @@ func (p *Process) Signal(sig os.Signal) error {
 	if s == nil {
 		return os.ErrProcessDone
 	}
-	if alive, ok := extraLive[p.Pid]; ok {
-		if alive {
-			return nil
-		}
-		return os.ErrProcessDone
+	alive := false
+	if a, ok := extraLive[p.Pid]; ok {
+		alive = a
+	} else if q := s.ProcByPid(p.Pid); q != nil && !q.Dead() {
+		alive = true
 	}
-	if q := s.ProcByPid(p.Pid); q != nil && !q.Dead() {
+	if ProbeHook != nil {
+		ProbeHook(simrt.CurProc(), p.Pid, alive)
+	}
+	if alive {
 		return nil
 	}
 	return os.ErrProcessDone
 }
+
+// ProbeHook, if set, sees every liveness probe (signal 0) and its answer.
+var ProbeHook func(by *simrt.Proc, pid int, alive bool)
 
 // ---------------------------------------------------------------- *os.File methods
 
